@@ -27,6 +27,12 @@ IdsEventFailed(ev) ==
                ELSE IF Len(ev.saved.v) # Len(ev.res.v) THEN {"ids/results_file_holds_every_record"}
                ELSE IF \E i \in DOMAIN ev.res.v : ev.saved.v[i].id # ev.res.v[i].id \/ ev.saved.v[i].orig # ev.res.v[i].orig
                     THEN {"ids/original_id_survives_the_results_file"} ELSE {})
+         (* ... and in the GenBank outputs of the run itself: the antiSMASH-Data comment of each record names that
+            record's own original identifier, and names none for a record that kept its identifier *)
+         \cup (IF ev.gbk.exc # "" THEN {"ids/genbank_comment_no_exception:" \o ev.gbk.exc}
+               ELSE IF Len(ev.gbk.v) # Len(ev.res.v) THEN {"ids/genbank_comment_for_every_record"}
+               ELSE IF \E i \in DOMAIN ev.res.v : ev.gbk.v[i] # ev.res.v[i].orig
+                    THEN {"ids/original_id_is_in_the_genbank_comment_of_its_record"} ELSE {})
 
 FixEventFailed(ev) ==
     IF ev.res.exc # "" THEN {"fix/no_exception:" \o ev.res.exc}
